@@ -33,6 +33,18 @@ CHECKS = {
          "Generated single instructions with boundary-biased 256-bit operands and generated multi-instruction programs (loops, conditional jumps, fake jump targets, memory expansion incl. 32-bit boundary offsets, persistent/transient storage, copies, hashing, all endings) over random call data are deployed through the real EAM path and invoked through InvokeContract; outcome class, return/revert data and the final storage of every touched slot must equal what harness/src/evmref.rs (Yellow Paper + EIPs on num-bigint) computes.",
          "Trusted: the reference interpreter; SimVM; verif-hooks fuel/memory cap in place of gas (exhausted cases discarded and counted). Gas-dependent opcodes, precompiles, calls and logs are outside the compared subset.",
          "§3 C17"),
+ "C18": ("property-based testing (proptest): totality on arbitrary byte programs + differential limit programs + static-context scripts",
+         "Arbitrary token/byte strings (opcodes incl. CALL/CREATE/LOG families, pushes of live, reserved and unknown addresses, raw bytes) are deployed as runtime code or run as init code and invoked with random call data, directly and beneath 1-3 nested STATICCALL wrappers; no invocation anywhere in the trace may panic, exit codes must be success/revert/defined failures, and a message made only of static calls must leave every actor's state root and balance unchanged and emit no event. Limit programs (1018-1029 stack pushes then environment opcodes, jumps into PUSH data / non-JUMPDEST / out of range / beyond 32 bits, memory offsets around 2^32) are compared with the reference interpreter; static-heavy scripts with the journal model.",
+         "Trusted: SimVM (catches panics, enforces read-only at the syscall layer like the FVM), reference interpreter and journal model, verif-hooks fuel/memory cap.",
+         "§3 C18"),
+ "C19": ("model-based property testing (proptest): generated multi-contract call trees compiled to bytecode, compared with an independent journal model",
+         "Generated systems of 2-4 contracts and 1-4 top-level messages from two senders with aligned nonces; each message is a tree of activations (CALL/STATICCALL/DELEGATECALL incl. re-entrant and self calls, value, SSTORE/TSTORE/SLOAD/TLOAD, LOG, CREATE/CREATE2 with succeeding/reverting/failing/self-destructing constructors, calls into created contracts, SELFDESTRUCT, RETURN/REVERT/INVALID) compiled by the harness to bytecode and executed through the real EAM/EVM actors; nested report buffers (success flags, return data, values read before/after calls), final storage, balances, code liveness and events must equal the journal model's prediction after every message.",
+         "Trusted: the journal model in harness/src/engines/evmsys.rs, the harness's RLP/Keccak address formulas, SimVM, verif-hooks.",
+         "§3 C19"),
+ "C20": ("model-based property testing (proptest) with a registry model of ids, addresses, codes and nonces",
+         "Generated identity histories (init.Exec of every code kind directly and through a multisig, Exec4 / EAM.Create / Create2 called directly, CreateExternal from native and Ethereum accounts with all constructor endings, auto-created accounts and placeholders incl. at a future contract address, placeholder-originated messages, CreateMiner, a payment channel deleted by Collect) and creation-heavy contract scripts (CREATE/CREATE2 with colliding salts, self-destruct, resurrection); after every message ids are fresh and >= next_id, the address map only grows and never remaps (also after deletion), code changes only placeholder->EVM/EthAccount, delegated addresses are unique/unreserved/mapped, contract nonces are monotone, only permitted creator/code pairs succeed, and every returned Ethereum address equals the harness's own CREATE/CREATE2 computation.",
+         "Trusted: SimVM's robust-address derivation (origin, nonce, per-message counter), harness address formulas.",
+         "§3 C20"),
 }
 PENDING_REASON = "check not built yet in this session (engine planned in DESIGN.md §3); not claimed until it runs silently on the unchanged tree and kills its mutants"
 
